@@ -213,8 +213,10 @@ class ExpressionManager(object):
             )
             n = up.model.fnode.FNode(content, self._next_free_id, self.environment)
             self._next_free_id += 1
-            self.expressions[content] = n
+            # type-check before memoising: an ill-typed node must not be returned by
+            # the next identical construction
             self.environment.type_checker.get_type(n)
+            self.expressions[content] = n
             return n
 
     def And(
